@@ -35,6 +35,9 @@ BATCH = 200
 def literal_of(b):
     from dissect.cobaltstrike import c2profile
 
+    if b and all(c < 0x80 for c in b):
+        # the text form of the same content converted first must not influence the conversion of the byte string
+        lib(c2profile.value_to_string, b.decode("ascii"), what="value_to_string(str)")
     lit = lib(c2profile.value_to_string, b, what="value_to_string")
     check(isinstance(lit, str), "literal:type", f"value_to_string({b!r}) -> {lit!r}")
     return lit
